@@ -30,7 +30,7 @@ P = {
     "i2s_n": {"quick": 300, "thorough": 3000},
     "classify_vec": _cls,
     "required_classes": _req(),
-    "level_text": "The bridge predicate (synthetic, body invokes exactly one distinct method on an object class, flagged bridge or inheritable with equal arity and position-wise bridge-compatible parameter and return types: equal, or plain object types not provably unrelated given the classes of the jar) and the effect on the mappings (for every qualifying method, translated official -> intermediary through the calamus remapper with the jars' inheritance, the invoked method's entry inside the bridge's class receives the name the named mappings give the bridge through inheritance; existing entries keep comment and parameters, missing ones are created, classes absent from the mappings are skipped, everything else identical) are specified declaratively and as the code's update loop; TLC checks loop = statement, well-keyedness and 'nothing else changes' over access-flag variants x invoked sets (none, one, one twice, two, a super class method, a method outside, no body) x ten signature pairs (covariant return, erasure to Object / to a bound, reversed bound, primitives, arity, void vs value, arrays) x type classes in the main jar / a library / nowhere / partly x renames in calamus x the bridge named in its class / only in a super class / nowhere x existing delegate entry none / plain / with comment and parameter x class present / absent. Every case is materialised as real jars (classes assembled by the independent assembler) and run through Jar::get_specialized_methods and add_specialized_methods_to_mappings; random class chains with several candidates are judged by TLC.",
+    "level_text": "The bridge predicate (synthetic, body invokes exactly one distinct method on an object class, flagged bridge or inheritable with equal arity and position-wise bridge-compatible parameter and return types: equal, or plain object types not provably unrelated given the classes of the jar) and the effect on the mappings (for every qualifying method, translated official -> intermediary through the calamus remapper with the jars' inheritance, the invoked method's entry inside the bridge's class receives the name the named mappings give the bridge through inheritance; existing entries keep comment and parameters, missing ones are created, classes absent from the mappings are skipped, everything else identical) are specified declaratively and as the code's update loop; TLC checks loop = statement, well-keyedness and 'nothing else changes' over access-flag variants x invoked sets (none, one, one twice, two, a super class method, a method outside, no body) x ten signature pairs (covariant return, erasure to Object / to a bound, reversed bound, primitives, arity, void vs value, arrays) x type classes in the main jar / a library / nowhere / partly x renames in calamus x the bridge named in its class / only in a super class / nowhere x existing delegate entry none / plain / with comment and parameter x class present / absent. Every case is materialised as real jars (classes assembled by the independent assembler) and run through Jar::get_specialized_methods and add_specialized_methods_to_mappings; random class chains with several candidates are judged by TLC. The named mappings may also list the bridge without a target name in its own class while a super class names it (shadow): the name still comes through inheritance.",
     "level_note": "Trusted: TLC, projection of mapping trees, harness/src/jarkit.rs (abstract jar -> class facts -> cfkit assembler -> zip), C06's remapper specification (reused). The module under test is compiled into the harness via #[path] with Official / Intermediary / Named supplied by the harness. Two bridges of one class delegating to the same method (order dependent result) are outside the quantifier and not generated.",
     "assumptions": ["TLC/SANY/CommunityModules", "cfkit assembler", "harness projection (proj_quill.rs)"],
 }
